@@ -480,7 +480,7 @@ impl Check for C13 {
         "C13"
     }
     fn rule(&self) -> String {
-        "exhaustive: every timestamp sequence of length L over 0..=6 ms x bounded-out-of-order delays 0..=4 ms (+ monotonic) x 6 late-data configurations, step-monitored after every add_event (so every prefix is checked); the Side and Allowed(1) configurations once more through a WatermarkGenerator + LateDataHandler pair driven by hand with the consumer calling clear_side_output() before offers #2 and #4; random (1 case in 24 with a bounded-out-of-order delay beyond u64 milliseconds: Duration::MAX, from_secs(u64::MAX), from_millis(u64::MAX)): lengths 1..=12 over a dense domain, also on an epoch-sized base, one in four on a time scale of x100..x1000 (delays and lateness bounds of a second and more), one in three through the hand-driven components with clear_side_output() at random points. A case is non-trivial when at least one event was late AND the watermark advanced at least once; distinct by (configuration, timestamp sequence).".into()
+        "exhaustive: every timestamp sequence of length L over 0..=6 ms x bounded-out-of-order delays 0..=4 ms (+ monotonic) x 6 late-data configurations, step-monitored after every add_event (so every prefix is checked); the Side and Allowed(1) configurations once more through a WatermarkGenerator + LateDataHandler pair driven by hand with the consumer calling clear_side_output() before offers #2 and #4; long: for every late-data configuration one sequence of 1500 (thorough 6000) late events after one high instant, through WatermarkedStream and through the hand-driven components; random (1 case in 30 with one or two instants in the upper half of the u64 range; 1 case in 24 with a bounded-out-of-order delay beyond u64 milliseconds: Duration::MAX, from_secs(u64::MAX), from_millis(u64::MAX)): lengths 1..=12 over a dense domain, also on an epoch-sized base, one in four on a time scale of x100..x1000 (delays and lateness bounds of a second and more), one in three through the hand-driven components with clear_side_output() at random points. A case is non-trivial when at least one event was late AND the watermark advanced at least once; distinct by (configuration, timestamp sequence).".into()
     }
     fn assumptions(&self) -> Vec<String> {
         vec![
@@ -545,6 +545,27 @@ impl Check for C13 {
             "all timestamp sequences of length {} over 0..=6 x delays 0..=4 and monotonic x 6 late-data configurations",
             len
         ));
+        // long sequences: thousands of late events under every late-data configuration (buffers and
+        // counters that only change behaviour with their size)
+        let long_n = cli.tier.pick(1_500usize, 6_000usize);
+        let long_cfgs = late_configs();
+        let long_cfgs = &long_cfgs;
+        shards(cli, nthreads, st, |shard, _rng, st| {
+            for (k, late) in long_cfgs.iter().enumerate() {
+                if k % nthreads != shard {
+                    continue;
+                }
+                // one high instant first, then `long_n` instants below the watermark it sets, then a
+                // few on-time ones
+                let mut ts: Vec<u64> = vec![10_000];
+                ts.extend((0..long_n as u64).map(|i| 9_000 - (i % 7)));
+                ts.extend([10_000, 10_001, 9_999]);
+                st.count("long_sequences_(thousands_of_late_events)");
+                st.max("max::events_in_one_sequence", ts.len() as u64);
+                check_case(&Case { wm: Wm::Bounded(0), late: late.clone(), base: 0, ts: ts.clone(), clears: None }, st);
+                check_case(&Case { wm: Wm::Bounded(0), late: late.clone(), base: 0, ts, clears: Some(vec![]) }, st);
+            }
+        });
         // random part
         let per = cli.n(40_000, 1_500_000);
         shards(cli, nthreads, st, |_shard, rng, st| {
@@ -591,6 +612,18 @@ impl Check for C13 {
                 };
                 let ts: Vec<u64> = ts.iter().map(|t| t * scale).collect();
                 let clears = if rng.chance(1, 3) { Some((0..n).filter(|_| rng.chance(1, 4)).collect()) } else { None };
+                // one case in 30: one or two instants in the upper half of the u64 range (half the
+                // range and more away from the others)
+                let (base, ts) = if rng.chance(1, 30) {
+                    let mut ts = ts;
+                    for _ in 0..1 + rng.below(2) {
+                        let k = rng.below(ts.len());
+                        ts[k] = *rng.pick(&[1u64 << 63, (1u64 << 63) + 7, u64::MAX - 5, u64::MAX]);
+                    }
+                    (0, ts)
+                } else {
+                    (base, ts)
+                };
                 check_case(&Case { wm, late, base, ts, clears }, st);
             }
         });
